@@ -24,7 +24,7 @@ InitCur == [model |-> EmptyModel, memo |-> <<>>, other |-> EmptyModel,
             m0 |-> EmptyModel, m1 |-> EmptyModel, gen |-> 0, wd |-> <<>>, wmemo |-> <<>>, fmt |-> "",
             pj |-> [out |-> "none", anom |-> <<>>, post |-> EmptyModel]]
 
-EditActions == {"EditCard", "EditAddChild", "EditRemoveKid", "EditReplaceKid", "EditMove", "EditImport", "EditAbstract", "EditAttrVal", "EditRemoveCtc",
+EditActions == {"EditCard", "EditAddChild", "EditRemoveKid", "EditReplaceKid", "EditMove", "EditReown", "EditImport", "EditAbstract", "EditAttrVal", "EditRemoveCtc",
                 "EditCtcOp", "EditRename"}
 BuilderActions == {"NewModel", "AddRelation", "SetAbstract", "SetType", "SetFCard",
                    "AddAttribute", "AddConstraint", "ReplaceConstraint"} \cup EditActions
@@ -64,6 +64,7 @@ BuildExpected(cur, e) ==
     [] e.a = "EditMove"      -> LET j == RelIdx(cur.model, e.args.o, e.args.ri)
                                     k == CHOOSE k \in DOMAIN cur.model.rels[j].kids : cur.model.rels[j].kids[k] = e.args.n
                                 IN  MoveKidF(cur.model, j, k, RelIdx(cur.model, e.args.o2, e.args.ri2))
+    [] e.a = "EditReown"     -> ReOwnF(cur.model, RelIdx(cur.model, e.args.o, e.args.ri), e.args.o2)
     [] e.a = "EditImport"    -> ImportF(cur.model, e.args.ctcs)
     [] e.a = "EditAbstract"  -> ToggleAbstractF(cur.model, e.args.f)
     [] e.a = "EditAttrVal"   -> SetAttrValF(cur.model, e.args.f, e.args.k, e.args.val)
